@@ -19,6 +19,8 @@ type vfPairOpt struct {
 	CliAct, SrvAct func(c *Conn) error
 	Horizon        time.Duration
 	Prepare        func(sim *vfDSim, cli, srv *Conn)
+	// KeepOpen exists for parity with the stream stack's runner (datagram endpoints are never closed by the runner).
+	KeepOpen bool
 	// FaultsDuringApp keeps the fault plan active after both handshakes completed.
 	FaultsDuringApp bool
 }
